@@ -41,7 +41,7 @@ RULE = ("world = seeded program tree (<= 3 processes x <= 4 tasks x <= 8 steps) 
 PROBES = ["waiter_parked_on_thread_lock_during_swap", "two_first_starts_racing",
           "child_acquires_while_parent_thread_holds", "grandchild_started",
           "nested_reentrant_call", "line_level_preemption", "contended_acquire",
-          "query_while_other_task_waits", "fork", "spawn"]
+          "query_while_other_task_waits", "fork", "spawn", "screen_redraw_step"]
 COMPONENTS = {
     "real": ["term_image.utils.lock_tty / query_terminal / read_tty / write_tty / get_cell_size",
              "_process_start_wrapper / _process_run_wrapper and the import-time Process patching "
@@ -90,12 +90,17 @@ class Monitor:
         self.ctx.log("exit", me, name, self.seq)
 
 
-def gen_program(ch, depth, budget):
-    """A task program: list of steps."""
+def gen_program(ch, depth, budget, mode="getters"):
+    """A task program: list of steps.  ``mode`` keeps the two documented lock-order inversions
+    out of a world: uncached calls of memoized getters (memo lock -> tty lock) and urwid screen
+    redraws (tty lock -> memo lock inside _ti_clear_images) are never mixed."""
     steps = []
     for _ in range(ch.int("n_steps", 1, 6)):
-        kinds = [(4, "probe"), (4, "query"), (1, "write"), (2, "read"), (1, "cell"),
-                 (2, "colors"), (1, "namever")]
+        kinds = [(4, "probe"), (4, "query"), (1, "write"), (2, "read"), (1, "cell")]
+        if mode == "getters":
+            kinds += [(2, "colors"), (1, "namever")]
+        elif depth == 0:
+            kinds.append((3, "screen"))
         if depth < 2 and budget[0] > 0:
             kinds.append((3, "start"))
         kind = ch.weighted("step", kinds)
@@ -104,7 +109,7 @@ def gen_program(ch, depth, budget):
         elif kind == "start":
             budget[0] -= 1
             nthreads = ch.int("child_threads", 1, 2)
-            steps.append(("start", [gen_program(ch, depth + 1, budget)
+            steps.append(("start", [gen_program(ch, depth + 1, budget, mode)
                                     for _ in range(nthreads)]))
         else:
             steps.append((kind,))
@@ -127,8 +132,9 @@ def describe(prog, indent=0):
 def run(ch, ctx, fault=None):
     profile = Profile(name="XTerm", version="370",
                       answers={"da1", "decrqm", "xtversion", "14t", "16t", "osc10", "osc11"})
-    w = World(ctx, ch, fault, rows=24, cols=80, profile=profile, cell_px=(8, 16), reuse=True)
-    k, tty, vt = w.k, w.tty, w.vt
+    w = World(ctx, ch, fault, rows=24, cols=80, profile=profile, cell_px=(8, 16), reuse=True,
+              with_widget=True, prefill=False)
+    k, tty, vt, out = w.k, w.tty, w.vt, w.out
     k.log_seams = False
     tty.ioctl_pixels = ch.bool("ioctl_px", 0.7)
     method = ch.pick("method", ("fork", "spawn", "forkserver"))
@@ -139,11 +145,12 @@ def run(ch, ctx, fault=None):
     tty.delay_fn = (lambda kind: ch.int("delay", 0, dmax)) if dmax else (lambda kind: 0)
     budget = [ch.int("procs", 0, 2)]
     n_root = ch.int("root_threads", 1, 4)
-    programs = [gen_program(ch, 0, budget) for _ in range(n_root)]
+    mode = ch.pick("mode", ("getters", "screen"))
+    programs = [gen_program(ch, 0, budget, mode) for _ in range(n_root)]
     if k.policy == "pct":
         k.pct_points = tuple(sorted(ch.int("pctp", 1, 400) for _ in range(ch.int("pctd", 1, 3))))
-    ctx.op("start method=%s policy=%s line_level=%s reply_delay<=%dns ioctl_px=%s"
-           % (method, k.policy, line_level, dmax, tty.ioctl_pixels))
+    ctx.op("start method=%s policy=%s line_level=%s reply_delay<=%dns ioctl_px=%s mode=%s"
+           % (method, k.policy, line_level, dmax, tty.ioctl_pixels, mode))
     for i, p in enumerate(programs):
         ctx.op("root thread %d:" % i)
         for line in describe(p, 2):
@@ -161,6 +168,52 @@ def run(ch, ctx, fault=None):
         # warm the memoized getters before concurrency starts (as the docs advise)
         u0.get_terminal_name_version()
         u0.get_fg_bg_colors()
+
+        # the urwid screen of process 0: its draw_screen / write / flush are synchronized on
+        # the terminal lock, so nobody else may touch the terminal inside its synchronized-
+        # update bracket
+        import urwid
+        from term_image.widget import UrwidImageScreen
+
+        class FakeIn:
+            def fileno(self):
+                return 1002
+
+            def isatty(self):
+                return False
+
+        screen = UrwidImageScreen(input=FakeIn(), output=out)
+        screen.start()
+        out.drain()
+        sync_owner = [None]
+        draws = [0]
+
+        def tid():
+            cur = k.current
+            return cur.tid if cur is not None else "inline"
+
+        orig_deliver = out._deliver
+
+        def deliver(data):
+            was = vt.synced
+            if was and sync_owner[0] not in (None, tid()):
+                raise Violation("screen_output_interleaved_inside_synchronized_update",
+                                {"writer": tid(), "owner": sync_owner[0]}, "screen")
+            orig_deliver(data)
+            if vt.synced and not was:
+                sync_owner[0] = tid()
+            if not vt.synced:
+                sync_owner[0] = None
+
+        out._deliver = deliver
+
+        def tty_write_hook(data):
+            if vt.synced and sync_owner[0] not in (None, tid()):
+                raise Violation("terminal_written_during_another_tasks_synchronized_update",
+                                {"writer": tid(), "owner": sync_owner[0], "data": data[:30]},
+                                "screen")
+
+        tty.write_hook = tty_write_hook
 
         def make_probe(utils, name):
             def body(depth):
@@ -203,6 +256,13 @@ def run(ch, ctx, fault=None):
                           {"task": label, "got": got}, "read")
                 elif kind == "cell":
                     utils.get_cell_size()
+                elif kind == "screen":
+                    draws[0] += 1
+                    top = urwid.Pile([("pack", urwid.Text("draw %d by %s" % (draws[0], label))),
+                                      urwid.SolidFill("abcdefgh"[draws[0] % 8])])
+                    canvas = top.render((80, 24), focus=True)
+                    ctx.probe("screen_redraw_step")
+                    screen.draw_screen((80, 24), canvas)
                 elif kind in ("colors", "namever"):
                     # first (uncached) call of a memoized getter: query + DA1 tail drain.
                     # Top-level only, so memo lock -> tty lock is the only order in play.
@@ -250,6 +310,7 @@ def run(ch, ctx, fault=None):
             pw.current_proc[t.tid] = pw.p0
         k.run_tasks()
         k.tracefunc = None
+        tty.write_hook = None
         # every task finished?
         for t in k.tasks:
             if t.exc is not None:
